@@ -1,5 +1,28 @@
 /-
-  C10 (reflow), prose fragment — the Markdown renderer WITH a line limit on paragraphs of plain words.
+  C10 (reflow), prose fragment — the Markdown renderer WITH a line limit (`max_line_length = L`) on documents made
+  of paragraphs of plain words.
+
+  Fragment: paragraphs are lists of lines, lines are lists of `plainWord`s (non-empty, no whitespace, no
+  inline-active character, first character unable to begin a block construct), written joined by single spaces +
+  "\n", paragraphs separated by one empty line.  Such a document is in the normal form of C09 (`normalPara_of_plain`),
+  so the C14 / C09 lemmas give its tree (`parse_plain`, `parse_plain_any`).  New here:
+
+  * `makeWords_prose`   — `make_words` on the fragments of such a paragraph (word-wrappable `RawText` fragments, the
+                          "\n" fragment of a soft `LineBreak`) yields all the words of the paragraph, in order;
+  * `spanToLines_wrap`, `renderBlocks_wrap`, `reflow_render` (a) — the renderer's output is `Wrap.fill L words`
+                          per paragraph;
+  * `reflowFacts`, `reflow_same_words`, `reflow_text` (b) — the output is the text of a document of the same
+                          fragment (`reflowG`) with the same word sequence per paragraph;
+  * `reflow_meaning` (c) — HTML of output and original agree after "\n" ↦ " " (`nlToSp`), under every covered
+                          token configuration (tree `proseBlocksB`, HTML in closed form `render_proseB`);
+  * `reflowG_idem`, `fill_idem`, `reflow_idempotent` (d) — reflowing again changes nothing;
+  * `reflow_bound` (e)  — a line longer than `L` is a single word without whitespace (from `C10_bound`).
+
+  Final theorems: `C10_prose_reflow_partial` (a + b + e), `C10_prose_reflow_meaning_partial` (c),
+  `C10_prose_reflow_idempotent_partial` (d); for the token lists of the working tree: `C10_prose_reflow_markdown`,
+  `C10_prose_reflow_meaning_configs`, `C10_prose_reflow_html`.  Nothing in (a)–(e) turned out false on the model.
+  Not covered: paragraphs inside containers (block quotes, list items: prefix and child budget), hard line breaks,
+  inline markup, and words that could be mistaken for block markers (excluded by `plainWord`).
 -/
 import Mistletoe.Props.C09
 import Mistletoe.Props.C10
@@ -544,6 +567,15 @@ theorem reflow_text (L : Nat) (p : List (List Str)) (rest : List (List (List Str
     rw [List.map_map]
     exact List.map_congr_left (fun q hq => reflowLines_eq L q (hrest q hq))
   rw [textOf, reflowLines_eq L p hp, e]
+
+/-- **(b) same words**: the refilled paragraph is again a paragraph of plain words (every line a non-empty sequence
+    of plain words joined by single spaces), its lines are the lines of the fill loop, and the concatenation of the
+    lines' words is the original word sequence.  (`Props.C10.C10_words` gives the grouping for arbitrary word lists;
+    here the groups are moreover non-empty, `fillG_groups_ne`, because there is no hard break.) -/
+theorem reflow_same_words (L : Nat) (g : List (List Str)) (h : plainPara g = true) :
+    plainPara (reflowG L g) = true ∧ (reflowG L g).flatten = g.flatten ∧
+      fill L g.flatten = (reflowG L g).map joinWords ∧ reflowLines L g = paraLines (reflowG L g) :=
+  ⟨(reflowFacts L g h).plain, (reflowFacts L g h).words, (reflowFacts L g h).lines, reflowLines_eq L g h⟩
 
 /-! ### (c) meaning: the HTML up to the position of the soft line breaks
 
